@@ -126,6 +126,16 @@ def run(ctx):
                 ctx.known_hits = getattr(ctx, "known_hits", 0) + 1
                 continue
             ctx.violations.append(dict(what=v["what"], key=v["what"], input=rescorr.replay_payload(c), observed=v))
+        if "earlier" in im:
+            # what an earlier run on the same object stored / returned is a value: it must not change when the object is simulated
+            # again (a kept field that is silently overwritten then violates every clause for ITS frac-face pressure)
+            e = im["earlier"]
+            if not np.array_equal(e["field_ref"], e["field_copy"]) or not np.array_equal(e["rf_ref"], e["rf_copy"]):
+                lo_e = float(np.min(e["field_ref"]))
+                ctx.violations.append(dict(what="the pseudopressure field (or recovery) kept from an earlier simulate on the same object changed when the object was simulated again with another "
+                                                "frac-face pressure: the kept field is no longer the solution for its own frac-face pressure" + (" (it goes below that pressure's scaled pseudopressure)" if lo_e < e["m_f"] - TOL else ""),
+                                           key="kept-output-overwritten", input=dict(**rescorr.replay_payload(c), earlier_pressure_fracface=e["pf"]),
+                                           observed=dict(max_change_field=float(np.abs(np.asarray(e["field_ref"], float) - e["field_copy"]).max()), kept_min=lo_e, frac_face_value_of_the_kept_run=e["m_f"])))
         if "field" in im:
             steps += im["field"].shape[0] - 1
             if c.get("relax"):
